@@ -254,7 +254,7 @@ func (b *binding) emitResolveVar(strict bool) {
 	} else {
 		var typ varType
 		if b.isConst {
-			if b.isStrict {
+			if b.isStrict || strict {
 				typ = varTypeStrictConst
 			} else {
 				typ = varTypeConst
